@@ -14,6 +14,8 @@ CONTROLS = [
     ("QuotaOffByOne", "MC_Ops_quick", "Inv_C10"),
     ("QuotaResetOnResume", "MC_Reconn_quick", "Inv_C10"),
     ("StaleMsz", "MC_Reconn_quick", "Inv_C12"),
+    ("ResetCountersOnConnack", "MC_Early_quick", "Inv_C11"),
+    ("LimitOnlyFromPlainConnack", "MC_Early_quick", "Inv_C12"),
     ("CompleteByTypeOnly", "MC_Ops_quick", "Inv_C05"),
     ("DupOnFirst", "MC_Ops_quick", "Inv_C06"),
     ("ZeroIdOnWrap", "MC_Ids_quick", "Inv_C11"),
